@@ -65,7 +65,29 @@ fn kept_versions_restore(report: &mut Report, sig: &str, case: &Value, sc: &Scen
     }
 }
 
+/// Directed: delete one version out of MORE THAN A HUNDRED (real code + the property's own oracle).
+fn many_versions_delete(report: &mut Report) {
+    let n = 112u32;
+    let (work, arch, _src, snaps) = many_versions(n);
+    report.case("many-versions-delete", true);
+    report.hit("directed:many-versions(112)");
+    let dry = real_delete(&arch, &[3], true, false, IceptConfig::default());
+    let real = real_delete(&arch, &[3], false, false, IceptConfig::default());
+    let case = json!({"directed": "many-versions", "versions": n, "operation": "delete b0003 (dry run first)"});
+    if !real.result.starts_with("result ok") {
+        report.oracle_fail("delete:many-versions-failed", case, "deleting one of 112 versions failed", json!(trunc(&real.result)));
+        return;
+    }
+    let count = |r: &RunResult, key: &str| r.result.split(' ').find_map(|t| t.strip_prefix(key)).and_then(|v| v.parse::<u64>().ok());
+    if count(&real, "deleted_block_count=") != Some(1) || count(&dry, "unreferenced_block_count=") != count(&real, "unreferenced_block_count=") {
+        report.oracle_fail("delete:many-versions-wrong-block-count", case.clone(), "deleting one version whose only private block is its journal must remove exactly one block, and the dry run must predict it", json!({"dry": trunc(&dry.result), "real": trunc(&real.result)}));
+    }
+    let keep: Vec<u32> = (0..n).filter(|b| *b != 3).collect();
+    many_versions_restore_all(report, "delete:harmed-kept-version-many-versions", "delete b0003", work.path(), &arch, &snaps, &keep);
+}
+
 pub fn run(tier: &str, seed: u64, report: &mut Report) {
+    many_versions_delete(report);
     let thorough = tier == "thorough";
     let n_scen = if thorough { 12 } else { 3 };
     for sidx in 0..n_scen {
